@@ -1,7 +1,7 @@
 (* C01 — Every signed message verifies, in memory and after a wire round trip.
    Statements only (copied from coq/theories by bin/mkprops); each proof is `exact <lemma>`. *)
 From Coq Require Import Ascii String ZArith List Bool Permutation.
-From GoCose Require Import Bytes Cbor CborProofs Res GoVal Obs Ecdsa EcdsaProofs Fx Headers Enc Dec Msg HashEnv Key SigVer Run TbsProofs FlowProofs DecProofs KeyProofs HdrProofs EncProofs EncCanon NoPanic Effects MoreProofs KeyCbor EncDec HdrRoundTrip WireLeg RulesTie.
+From GoCose Require Import Bytes Cbor CborProofs Res GoVal Obs Ecdsa EcdsaProofs Fx Headers Enc Dec Msg HashEnv Key SigVer Run TbsProofs FlowProofs DecProofs KeyProofs HdrProofs EncProofs EncCanon NoPanic Effects MoreProofs KeyCbor EncDec HdrRoundTrip WireLeg RulesTie HeWire.
 From GoCose.Gen Require Import Generated.
 Import ListNotations.
 Open Scope Z_scope.
@@ -109,7 +109,7 @@ Theorem C01_sign1_wire_roundtrip :
   exists pb ub dp du,
     marshal_protected h = Acc pb /\ marshal_unprotected h = Acc ub /\
     unmarshal_sign1 out = Acc (mkS1 (mkH (Some pb) (Some dp) (Some ub) (Some du)) payload (Some sig)) /\
-    same_view (hmap op) dp /\ same_view (hmap ou) du /\ 0 < len pb.
+    same_view (hmap op) dp /\ same_view (hmap ou) du /\ 0 < len pb /\ brel op dp /\ urel ou du.
 Proof. exact sign1_wire_roundtrip. Qed.
 Print Assumptions C01_sign1_wire_roundtrip.
 
